@@ -6,6 +6,7 @@ Import ListNotations.
 Require Import Verif.lib.PyLite Verif.lib.Regex Verif.lib.RegexProofs Verif.lib.FurlPrim Verif.gen.FurlGen Verif.lib.Utf8 Verif.lib.Furl Verif.lib.FurlProofs.
 Require Import Verif.lib.Connector Verif.lib.ConnectorProofs Verif.lib.ConnectAll Verif.lib.ConnectAllProofs.
 Require Import Verif.lib.TorState Verif.lib.TorStateProofs.
+Require Import Verif.lib.ConnectLateProofs Verif.lib.ConnectTor Verif.lib.ConnectTorProofs.
 Local Open Scope Z_scope.
 
 (* "Parsing a FURL either yields (tub id, hints, name) ... or raises the documented bad-FURL error".
@@ -174,10 +175,31 @@ Theorem C20_tor_outcome_table : forall nonpublic st hint,
 Proof. exact tor_outcome_table. Qed.
 Print Assumptions C20_tor_outcome_table.
 
+(* WEAKENING, stated precisely.  The property says "ends in an endpoint or the documented invalid-hint error - never another
+   exception".  For a Tor handler whose Tor cannot be had that sentence is NOT what is proved and is not true of the code:
+   with TorFails e an accepted hint ends in the Tor's OWN exception e -- the launch / control-connection error, any class
+   (C20_tor_fails_own_exception; read strictly the sentence is refuted: C20_tor_never_another_exception_refuted, witness
+   "tor:a.b:80" with a launch that fails with RuntimeError, replayed on the real handlers by oracle_tor_states / the
+   tor-state correspondence).  What IS proved in its place is exception ORIGIN (below: an exception of the handler is
+   InvalidHintError or the very exception its Tor failed with, never a third one, and never the Tor's for a hint that is
+   rejected) plus CONTAINMENT in the connector (C20_hint_status_is_own, C20_settled_status_is_final, C20_tor_down_reported:
+   the exception becomes that hint's "failed to connect" status and the other hints are unaffected).  This is not reported as
+   a finding: "the Tor is not available" is not a property of the hint, and InvalidHintError would be the wrong answer *)
 Theorem C20_tor_exception_origin : forall nonpublic st hint e,
   tor_handler nonpublic st hint = Done (Exc e) -> e = "InvalidHintError"%string \/ st = TorFails e.
 Proof. exact tor_exception_origin. Qed.
 Print Assumptions C20_tor_exception_origin.
+
+Theorem C20_tor_fails_own_exception : forall nonpublic e hint,
+  tor_handler nonpublic (TorFails e) hint =
+  match tor_hint_to_endpoint nonpublic hint with Ok _ => Done (Exc e) | Exc _ => Done (Exc "InvalidHintError") end.
+Proof. exact tor_fails_own_exception. Qed.
+Print Assumptions C20_tor_fails_own_exception.
+
+Theorem C20_tor_never_another_exception_refuted : exists nonpublic st hint e,
+  tor_handler nonpublic st hint = Done (Exc e) /\ e <> "InvalidHintError"%string.
+Proof. exact tor_strict_total_refuted. Qed.
+Print Assumptions C20_tor_never_another_exception_refuted.
 
 (* ... and the order of the steps matters (regression, seeded change C20-r6s1): were the handler to get its Tor going
    before it looks at the hint, an invalid hint would wait as long as the Tor takes and end in the Tor's exception *)
@@ -250,17 +272,35 @@ Print Assumptions C20_furl_anchored_linear.
 
 (* per-hint error containment (TubConnector.connectToAll with its callback chain, _connectionFailed, checkForFailure,
    failed; model lib/ConnectAll.v), for ALL hint lists (duplicates included) and ALL behaviours of the individual
-   hints -- an endpoint that is dialled, an endpoint whose connect() fails at once, or get_endpoint failing with ANY
-   exception (InvalidHintError or the handler's own):
+   hints -- an endpoint that is dialled (HPending), a handler that has not answered when the reactor is idle (HWaiting: a Tor
+   handler whose Tor is starting, TorState.Waiting), an endpoint whose connect() fails at once, or get_endpoint failing with
+   ANY exception (InvalidHintError or the handler's own):
    (1) every hint of the FURL is considered, whatever any hint does *)
 Theorem C20_every_hint_tried : forall beh hints h, In h hints -> In h (attempted (connect_all beh hints)).
 Proof. exact every_hint_tried. Qed.
 Print Assumptions C20_every_hint_tried.
 
-(* (2) a hint that yields a live endpoint is dialled -- no exception raised for another hint prevents it *)
-Theorem C20_usable_hint_dialled : forall beh hints h, In h hints -> beh h = HPending -> In h (pending (connect_all beh hints)).
+(* (2) a hint that yields a live endpoint is dialled, a hint whose handler is still waiting is held -- no exception raised for
+   another hint prevents it (is_pending o = true iff o is HPending or HWaiting) ... *)
+Theorem C20_usable_hint_dialled : forall beh hints h, In h hints -> is_pending (beh h) = true -> In h (pending (connect_all beh hints)).
 Proof. exact usable_hint_dialled. Qed.
 Print Assumptions C20_usable_hint_dialled.
+
+(* ... validHints holds exactly the hints for which get_endpoint gave an endpoint (dialled, or connect() failed at once) ... *)
+Theorem C20_valid_hints : forall beh hints h,
+  (In h (valid (connect_all beh hints)) -> gives_endpoint (beh h) = true) /\
+  (In h hints -> gives_endpoint (beh h) = true -> In h (valid (connect_all beh hints))).
+Proof. exact (fun beh hints h => conj (valid_only_endpoints beh hints h) (endpoints_are_valid beh hints h)). Qed.
+Print Assumptions C20_valid_hints.
+
+(* ... so a WAITING hint sits in pendingConnections but not in validHints, its status is the one get_endpoint / the handler
+   set, the connector is active and has reported nothing *)
+Theorem C20_waiting_hint_held : forall beh hints h, In h hints -> beh h = HWaiting ->
+  let r := connect_all beh hints in
+  In h (pending r) /\ ~ In h (valid r) /\ status_of h (statuses r) = Some SResolving /\
+  active r = true /\ failed_calls r = 0%nat.
+Proof. exact waiting_hint_held. Qed.
+Print Assumptions C20_waiting_hint_held.
 
 (* (3) ... and every hint ends with the status that its OWN outcome determines *)
 Theorem C20_hint_status_is_own : forall beh hints h, In h hints ->
@@ -270,13 +310,112 @@ Print Assumptions C20_hint_status_is_own.
 
 (* (4) the connector neither stalls nor reports twice: either a connection attempt is running and nothing has been reported
    (the connect timer bounds the wait: C20_no_stall), or failed() -- Tub.connectionFailed, which answers every waiting
-   getReference -- ran exactly once before connect() returned; `usable` (the flag of Connector.v's GetRef event) decides *)
+   getReference -- ran exactly once before connect() returned; `usable` (the flag of Connector.v's GetRef event: some hint is
+   dialled OR waited for) decides *)
 Theorem C20_connect_all_outcome : forall beh hints,
   let r := connect_all beh hints in
   (usable beh hints = true /\ pending r <> [] /\ active r = true /\ failed_calls r = 0%nat) \/
   (usable beh hints = false /\ pending r = [] /\ active r = false /\ failed_calls r = 1%nat).
 Proof. exact connect_all_outcome. Qed.
 Print Assumptions C20_connect_all_outcome.
+
+(* (5) AFTER connect() has returned (the asynchronous path).  Late events, in any order and number: the Deferred of a waiting
+   hint fires at last (LResolve h o: endpoint pending / connect() fails / the handler fails), a pending connect() fails
+   (LConnFail), the connect timer fires (LTimeout: connectionTimedOut -> shutdown -> d.cancel() for every pending Deferred ->
+   _remove / _connectionFailed with the cancellation error cx h -> failed()).  For ALL hint lists, behaviours, schedules and
+   cancellation errors: either nothing has been reported, the connector is active (timer armed) and something is pending, or
+   failed() ran EXACTLY once and nothing is pending -- never twice, never "inactive but unreported" *)
+Theorem C20_late_outcome : forall cx beh hints evs,
+  let r := run_late cx evs (connect_all beh hints) in
+  (active r = true /\ failed_calls r = 0%nat /\ pending r <> []) \/
+  (active r = false /\ failed_calls r = 1%nat /\ pending r = []).
+Proof. exact late_outcome. Qed.
+Print Assumptions C20_late_outcome.
+
+(* (6) ... and once the connect timer has fired the failure HAS been reported, exactly once (the time bound is C20_no_stall's) *)
+Theorem C20_timeout_reports : forall cx beh hints evs,
+  let r := run_late cx (evs ++ [LTimeout]) (connect_all beh hints) in
+  active r = false /\ failed_calls r = 1%nat /\ pending r = [].
+Proof. exact timeout_reports. Qed.
+Print Assumptions C20_timeout_reports.
+
+(* (7) a hint whose handler never answers: held, and nothing reported, until the timer fires -- whatever the other hints do
+   meanwhile; then cancelled (status of the cancellation error: "abandoned" for CancelledError), failure NegotiationError *)
+Theorem C20_waiting_forever : forall cx beh hints h evs,
+  In h hints -> beh h = HWaiting -> (forall o, ~ In (LResolve h o) evs) ->
+  let r := run_late cx evs (connect_all beh hints) in
+  (active r = true /\ failed_calls r = 0%nat /\ In h (pending r) /\ ~ In h (valid r) /\
+   status_of h (statuses r) = Some SResolving) \/
+  (In LTimeout evs /\ active r = false /\ failed_calls r = 1%nat /\ pending r = [] /\
+   status_of h (statuses r) = Some (classify (cx h)) /\ reason r = Some "NegotiationError"%string).
+Proof. exact waiting_forever. Qed.
+Print Assumptions C20_waiting_forever.
+
+(* (8) a hint that was settled when connect() returned keeps the status of its OWN outcome whatever happens later *)
+Theorem C20_settled_status_is_final : forall cx beh hints h evs, In h hints -> is_pending (beh h) = false ->
+  status_of h (statuses (run_late cx evs (connect_all beh hints))) = Some (expected_status (beh h)).
+Proof. exact settled_status_is_final. Qed.
+Print Assumptions C20_settled_status_is_final.
+
+(* THE COMPOSITION of the Tor handler (the C20_tor_ theorems above) with the connector: tor_beh nonpublic st epb h is what the connector sees of
+   the hint h when it is handled by a Tor handler in state st (Waiting -> HWaiting, endpoint -> what its connect() does, epb h;
+   exception -> passed through by get_endpoint).
+   (9) a hint list containing a Tor hint h whose Tor NEVER comes up (the other hints: anything; the late schedule: anything in
+   which h's Deferred does not fire): reported exactly once when the timer has fired, nothing left pending; a hint the handler
+   rejects is "bad hint" from the start and stays so; a hint it accepts was held (pending, NOT valid, nothing reported when
+   connect() returned) and ends cancelled, the failure being NegotiationError *)
+Theorem C20_tor_never_up_reported : forall nonpublic epb cx beh hints h evs,
+  In h hints -> beh h = tor_beh nonpublic TorStarting epb h -> (forall o, ~ In (LResolve h o) evs) ->
+  let r0 := connect_all beh hints in
+  let r := run_late cx (evs ++ [LTimeout]) r0 in
+  active r = false /\ failed_calls r = 1%nat /\ pending r = [] /\
+  match tor_hint_to_endpoint nonpublic h with
+  | Exc _ => status_of h (statuses r0) = Some SBadHint /\ status_of h (statuses r) = Some SBadHint
+  | Ok _ => In h (pending r0) /\ ~ In h (valid r0) /\ active r0 = true /\ failed_calls r0 = 0%nat /\
+            status_of h (statuses r0) = Some SResolving /\
+            status_of h (statuses r) = Some (classify (cx h)) /\ reason r = Some "NegotiationError"%string
+  end.
+Proof. exact tor_never_up_reported. Qed.
+Print Assumptions C20_tor_never_up_reported.
+
+(* (10) a Tor that is DOWN (fails with e): the hint is settled when the reactor is idle, with the status of InvalidHintError
+   resp. of the Tor's own exception, for good.  (Here the Tor's exception is taken as the hint's outcome AT reactor idle; the
+   statuses, validHints as a set and the counters do not depend on that, the ORDER in which failures reach failureReason does:
+   see (10') for the real order) *)
+Theorem C20_tor_down_reported : forall nonpublic epb cx beh hints h e evs,
+  In h hints -> beh h = tor_beh nonpublic (TorFails e) epb h ->
+  let r := run_late cx evs (connect_all beh hints) in
+  ~ In h (pending (connect_all beh hints)) /\
+  status_of h (statuses r) = Some (match tor_hint_to_endpoint nonpublic h with Ok _ => classify e | Exc _ => SBadHint end).
+Proof. exact tor_down_reported. Qed.
+Print Assumptions C20_tor_down_reported.
+
+(* (10') the same in the order of the real reactor turns: a Tor handler answers an ACCEPTED hint through its observer list, in a
+   later turn even when the Tor has already failed (or is there) -- when connect() returns the hint is waiting and the Tor's
+   exception arrives as a late event, after the synchronous outcomes of all other hints.  Whatever happens in between (anything but
+   the timer) and afterwards, the hint ends with the status of the Tor's own exception; generally (C20_late_resolution) with the
+   status of whatever failure its handler answers late *)
+Theorem C20_late_resolution : forall cx beh hints h evs1 o evs2,
+  In h hints -> beh h = HWaiting -> (forall o', ~ In (LResolve h o') evs1) -> ~ In LTimeout evs1 -> is_pending o = false ->
+  status_of h (statuses (run_late cx (evs1 ++ LResolve h o :: evs2) (connect_all beh hints))) = Some (expected_status o).
+Proof. exact late_resolution. Qed.
+Print Assumptions C20_late_resolution.
+
+Theorem C20_tor_down_reported_late : forall nonpublic epb cx beh hints h e ep evs1 evs2,
+  In h hints -> tor_hint_to_endpoint nonpublic h = Ok ep -> beh h = HWaiting ->
+  (forall o', ~ In (LResolve h o') evs1) -> ~ In LTimeout evs1 ->
+  status_of h (statuses (run_late cx (evs1 ++ LResolve h (tor_beh nonpublic (TorFails e) epb h) :: evs2) (connect_all beh hints)))
+    = Some (classify e).
+Proof. exact tor_down_reported_late. Qed.
+Print Assumptions C20_tor_down_reported_late.
+
+(* (11) a FURL all of whose hints are rejected by the Tor handler is answered before connect() returns, whatever the Tor does *)
+Theorem C20_tor_all_rejected_answered_at_once : forall nonpublic st epb beh hints,
+  (forall h, In h hints -> beh h = tor_beh nonpublic st epb h /\ tor_hint_to_endpoint nonpublic h = Exc "InvalidHintError"%string) ->
+  let r := connect_all beh hints in
+  failed_calls r = 1%nat /\ active r = false /\ pending r = [].
+Proof. exact tor_all_rejected_answered_at_once. Qed.
+Print Assumptions C20_tor_all_rejected_answered_at_once.
 
 (* "... so an untrusted FURL (for example one received as a gift) cannot stall ... the process": on a Tub whose peers never
    answer, after ANY history of getReference calls (FURLs with or without a usable hint, for any tub ids) and passage of
